@@ -330,6 +330,7 @@ type FakeAction struct {
 	Code   int    // for rpc-error
 	CT     string // for raw on Streamable HTTP: the Content-Type of the response
 	Cut    int    // for fault: write only the first Cut bytes of Raw ...
+	Split  bool   // for raw on event streams: written in pieces (see writeSplit)
 	Then   string // ... then: "close" (end of stream), "reset" (read error), "stall" (nothing more until the peer leaves), "exit0" "exit3" "kill9" (stdio child)
 }
 
@@ -465,7 +466,9 @@ func (f *FakeServer) ServeHTTP(w http.ResponseWriter, r *http.Request) {
 		for {
 			select {
 			case fr := <-ch:
-				if strings.HasPrefix(fr, "RAW:") {
+				if strings.HasPrefix(fr, "RAWSPLIT:") {
+					writeSplit(w, fr[len("RAWSPLIT:"):])
+				} else if strings.HasPrefix(fr, "RAW:") {
 					io.WriteString(w, fr[4:])
 				} else {
 					fmt.Fprintf(w, "id: g%d\ndata: %s\n\n", time.Now().UnixNano(), fr)
@@ -531,7 +534,11 @@ func (f *FakeServer) ServeHTTP(w http.ResponseWriter, r *http.Request) {
 		}
 		w.Header().Set("Content-Type", ct)
 		w.WriteHeader(200)
-		io.WriteString(w, renderRaw(act.Raw, method, m.ID, m.Params))
+		if act.Split && strings.Contains(ct, "event-stream") {
+			writeSplit(w, renderRaw(act.Raw, method, m.ID, m.Params))
+		} else {
+			io.WriteString(w, renderRaw(act.Raw, method, m.ID, m.Params))
+		}
 		return
 	}
 	if kind != "request" {
@@ -590,7 +597,9 @@ func (f *FakeServer) serveLegacy(w http.ResponseWriter, r *http.Request) {
 					finishFault(p[1], r)
 					return
 				}
-				if strings.HasPrefix(fr, "RAW:") {
+				if strings.HasPrefix(fr, "RAWSPLIT:") {
+					writeSplit(w, fr[len("RAWSPLIT:"):])
+				} else if strings.HasPrefix(fr, "RAW:") {
 					io.WriteString(w, fr[4:])
 				} else {
 					fmt.Fprintf(w, "event: message\ndata: %s\n\n", fr)
@@ -631,7 +640,11 @@ func (f *FakeServer) serveLegacy(w http.ResponseWriter, r *http.Request) {
 			}
 			ch <- "FAULT:" + act.Then + ":" + body[:cut]
 		} else if kind == "request" && act.Kind == "raw" {
-			ch <- "RAW:" + strings.ReplaceAll(renderRaw(act.Raw, method, m.ID, m.Params), "{{endpoint}}", "/message?sessionId="+sid)
+			pfx := "RAW:"
+			if act.Split {
+				pfx = "RAWSPLIT:"
+			}
+			ch <- pfx + strings.ReplaceAll(renderRaw(act.Raw, method, m.ID, m.Params), "{{endpoint}}", "/message?sessionId="+sid)
 		} else if kind == "request" && act.Kind != "silent" {
 			if fr := RenderAnswer(act, method, m.ID, m.Params); fr != "" {
 				ch <- fr
@@ -693,6 +706,22 @@ func (s *statusWriter) Flush() {
 	}
 	if f, ok := s.ResponseWriter.(http.Flusher); ok {
 		f.Flush()
+	}
+}
+
+// writeSplit writes an event stream in pieces: every frame's terminating blank line reaches the reader in a later
+// read than the frame's last field line (what a network does to large frames).
+func writeSplit(w http.ResponseWriter, raw string) {
+	for {
+		i := strings.Index(raw, "\n\n")
+		if i < 0 {
+			io.WriteString(w, raw)
+			return
+		}
+		io.WriteString(w, raw[:i+1])
+		w.(http.Flusher).Flush()
+		time.Sleep(3 * time.Millisecond)
+		raw = raw[i+1:]
 	}
 }
 
